@@ -238,6 +238,24 @@ def callgraph():
                         calls[x.name].add(c.attr)
                     if isinstance(c, ast.Name):
                         calls[x.name].add(c.id)
+    # calling a class reaches its constructor (its own or an inherited one)
+    bases, has_init = {}, set()
+    for f in FILES:
+        p = os.path.join(REPO, f)
+        if not os.path.exists(p):
+            continue
+        for node in ast.walk(ast.parse(open(p).read())):
+            if isinstance(node, ast.ClassDef):
+                bases[node.name] = [getattr(b, "id", getattr(b, "attr", None)) for b in node.bases]
+                if any(isinstance(x, ast.FunctionDef) and x.name == "__init__" for x in node.body):
+                    has_init.add(node.name)
+    for c in bases:
+        k, seen = c, set()
+        while k and k not in has_init and k not in seen:
+            seen.add(k)
+            k = next((b for b in bases.get(k, []) if b in bases), None)
+        if k in has_init:
+            defs.setdefault(c, set()).add(k + ".__init__")
     return calls, defs
 
 
